@@ -32,6 +32,8 @@ type gvAsg struct {
 type gvCtx struct {
 	c     *Ctx
 	depth int
+	// the chains of the arguments given to the parameters of the package functions being followed
+	params map[types.Object][][]string
 }
 
 func isPredicateMethod(f *types.Func) bool {
@@ -124,6 +126,9 @@ func (g *gvCtx) chains(p *packages.Package, fd *ast.FuncDecl, asg map[types.Obje
 		}
 		list := asg[o]
 		if len(list) == 0 {
+			if pc, ok := g.params[o]; ok && len(pc) > 0 {
+				return pc
+			}
 			return [][]string{{}}
 		}
 		var cur [][]string
@@ -160,6 +165,21 @@ func (g *gvCtx) chains(p *packages.Package, fd *ast.FuncDecl, asg map[types.Obje
 		if f != nil && f.Pkg() == p.Types {
 			if d, dp := g.c.DeclOf(f); d != nil && d.Body != nil {
 				dasg := gvAssignments(dp.TypesInfo, d)
+				// the parameters stand for the arguments of this call
+				if g.params == nil {
+					g.params = map[types.Object][][]string{}
+				}
+				k := 0
+				for _, fl := range d.Type.Params.List {
+					for _, nm := range fl.Names {
+						if k < len(x.Args) {
+							if po := dp.TypesInfo.ObjectOf(nm); po != nil {
+								g.params[po] = g.chains(p, fd, asg, x.Args[k], at, self, selfAlts, depth+1)
+							}
+						}
+						k++
+					}
+				}
 				var out [][]string
 				ast.Inspect(d.Body, func(m ast.Node) bool {
 					if _, isLit := m.(*ast.FuncLit); isLit {
